@@ -71,3 +71,24 @@ for cls in ['Intersects', 'Disjoint']:
     UNITS['RP_%s_updateDimension' % cls] = rp(cls, 'updateDimension', 3, ['BP_setValueIf', 'BP_isIntersection'])
     UNITS['RP_%s_finish' % cls] = rp(cls, 'finish', 0, ['BP_setValue'])
 ALSO = {'C02': list(UNITS)}
+
+# ---- Envelope member predicates used by the predicate layer (null envelope = NaN bounds) ----
+ENVH = 'src/geom/Envelope.cpp'
+def ev(name, n, pt, deps=()):
+    return dict(src=ENVH, qual='geos::geom::Envelope::' + name, nparams=n, ptypes=pt, imports=['Lib.GenPreludeEnv'], imports_last=True, deps=list(deps))
+UNITS.update({
+    'ENV_isNull': ev('isNull', 0, []),
+    'ENV_covers': ev('covers', 1, ['Envelope &']),
+    'ENV_intersects': ev('intersects', 1, ['Envelope *']),
+    'ENV_equals': ev('equals', 1, ['Envelope *'], ['ENV_isNull']),
+})
+ALSO = {'C02': list(UNITS)}
+UNITS['RNG_hasRequiredEnvelopeInteraction'] = dict(src='src/operation/relateng/RelateNG.cpp', qual=NS + 'RelateNG::hasRequiredEnvelopeInteraction',
+    nparams=2, imports=['Lib.GenPreludeGate'], deps=[], consts={'GEOM_A': NS + 'RelateGeometry::GEOM_A', 'GEOM_B': NS + 'RelateGeometry::GEOM_B'})
+ALSO = {'C02': list(UNITS)}
+TPH = 'src/operation/relateng/RelatePredicate.cpp'
+UNITS['TP_requireInteraction'] = dict(src=TPH, qual=NS + 'TopologyPredicate::requireInteraction', nparams=0, imports=PRE, deps=[])
+UNITS['TP_requireCovers'] = dict(src=TPH, qual=NS + 'TopologyPredicate::requireCovers', nparams=1, imports=PRE, deps=[])
+UNITS['RP_Disjoint_requireInteraction'] = rp('Disjoint', 'requireInteraction', 0)
+UNITS['RP_EqualsTopo_requireInteraction'] = rp('EqualsTopo', 'requireInteraction', 0)
+ALSO = {'C02': list(UNITS)}
